@@ -935,6 +935,41 @@ def r16_5(rep: Report, idx: Index) -> None:
     rep.extra['r16_5_attribute_reads_examined'] = n_checked
 
 
+def r16_10(rep: Report, idx: Index) -> None:
+    """a time-of-day error position is turned into a segment number with the segment duration of the
+    track it is addressed to: the representation handed to calculate_injected_error_segments belongs to
+    the media type of the error list (audio segments are not video segments long)"""
+    from ..core import subst_locals
+    rid = 'R16.10'
+    f = idx.functions.get(
+        'dashlive.server.requesthandler.manifest_context.ManifestContext.calculate_cgi_parameters')
+    if f is None:
+        raise AnalysisError('calculate_cgi_parameters vanished')
+    fn = f.node
+    calls = [n for n in ast.walk(fn) if isinstance(n, ast.Call)
+             and (call_name(n) or '').endswith('calculate_injected_error_segments')]
+    if not calls:
+        raise AnalysisError('calculate_cgi_parameters no longer calls calculate_injected_error_segments')
+    for c in calls:
+        if not c.args:
+            continue
+        errs = norm(subst_locals(fn, c.args[0], allow_calls=True))
+        rep_arg = c.args[-1] if len(c.args) > 1 else next((k.value for k in c.keywords if 'rep' in (k.arg or '')), None)
+        rtxt = norm(subst_locals(fn, rep_arg, allow_calls=True)) if rep_arg is not None else '?'
+        media = 'audio' if 'audioErrors' in errs else 'text' if 'textErrors' in errs else \
+            'video' if ('videoErrors' in errs or 'videoCorruption' in errs) else None
+        key = f'{errs[:40]} -> {rtxt[:40]}'
+        if media is None:
+            rep.ok(rid, f.construct(), key, 'error list of unknown media type (not decided)')
+        elif rtxt.startswith(media):
+            rep.ok(rid, f.construct(), key, f'{media} errors, {media} representation')
+        else:
+            rep.fail(rid, f.construct(), key,
+                     f'{media} error positions (`{errs[:50]}`) are converted to segment numbers with `{rtxt[:50]}`: '
+                     f'a time-of-day position addresses a different {media} segment than the one that gets the error',
+                     c)
+
+
 def r16_9(rep: Report, idx: Index) -> None:
     """values kept in the Flask session: what one helper stores under a key is what the other
     computes with.  `session.get(key, 0) + 1` uses the default only when the key is *absent*; a
@@ -1004,6 +1039,7 @@ def analyse(rep: Report) -> None:
              floor=2)
     rep.rule('R16.7', 'synthetic errors fire exactly for the addressed request; no other literal 5xx',
              floor=10)
+    rep.rule('R16.10', 'error positions are converted with the representation of their own media type', floor=2)
     rep.rule('R16.9', 'session values are stored in the type their readers compute with', floor=1)
     idx = Index(rep.repo)
     cg = CallGraph(idx)
@@ -1015,6 +1051,7 @@ def analyse(rep: Report) -> None:
     r16_6(rep, idx)
     r16_7(rep, idx)
     r16_9(rep, idx)
+    r16_10(rep, idx)
     rep.assumptions = [
         'call edges are the resolved ones (CHA, typed locals, proxies); template calls are added '
         'for the three timeline generators; unresolved dynamic calls propagate nothing',
